@@ -48,7 +48,7 @@ def prepare():
 
 EDITS = [("set_pts", 3), ("set_weights", 2), ("set_knots", 1.5), ("redefine", 1), ("set_delta", 2), ("set_sample", 2),
          ("insert", 2), ("remove", 1), ("refine", 0.7), ("reverse", 2), ("transpose", 1.5), ("flip", 1),
-         ("translate", 1.5), ("rotate", 0.8), ("scale", 1), ("deepcopy", 1.2), ("transform_copy", 0.8), ("set_tessellator", 0.5)]
+         ("translate", 1.5), ("rotate", 0.8), ("scale", 1), ("deepcopy", 1.2), ("transform_copy", 0.8), ("set_tessellator", 0.5), ("degree_op", 0.6)]
 REJECTS = ["bad_delta", "bad_sample", "bad_knots", "bad_point", "bad_insert", "bad_weights"]
 CONT_OPS = [("cadd", 3), ("cdelta", 1), ("csample", 1), ("cread", 3), ("ctess", 1), ("ccopy", 0.8)]
 
@@ -391,6 +391,16 @@ def _apply_edit(world, lv, op, rng):
         if max(sizes) > 8:
             return "skip"
         g.operations.refine_knotvector(obj, dens)
+        return "ok"
+    if e == "degree_op":
+        # degree elevation / reduction edits degree, knot vector and control points of a curve in place
+        if nd != 1 or max(sizes) > 7:
+            return "skip"
+        degs = shapes.definition(obj)["degrees"]
+        up = (op["seed"] % 3 != 0) or degs[0] < 2
+        if up and degs[0] >= 4:
+            return "skip"
+        g.operations.degree_operations(obj, [1 if up else -1])
         return "ok"
     if e == "set_tessellator":
         if nd != 2:
